@@ -7,7 +7,7 @@
       _refuted theorems about rp_orig / rp_no_* to real code;
   (2) runs the registered check against that tree and reports whether it fired.
 
-usage: tools/c15_variants.py [<commit of /repo that has all seven repairs, default HEAD>]
+usage: tools/c15_variants.py [<commit of /repo that has all eight repairs, default HEAD>]
        (each variant = that tree with some repairs taken out by tools/c15_patches.py --reverse)"""
 import os
 import random
@@ -18,21 +18,26 @@ ROOT = os.path.dirname(os.path.dirname(os.path.abspath(__file__)))
 sys.path.insert(0, os.path.join(ROOT, "tools"))
 
 # repair number -> position of its flag in the variant string
-# (bitidx shguard nooverwrite rbflag arm resp_rb resp_nowrite)
-FLAGPOS = {1: 0, 2: 1, 3: 3, 4: 2, 5: 4, 6: 5, 7: 6}
+# (bitidx shguard nooverwrite rbflag arm resp_rb resp_nowrite abort_rb)
+FLAGPOS = {1: 0, 2: 1, 3: 3, 4: 2, 5: 4, 6: 5, 7: 6, 8: 7}
 
 
 def main():
-    base = sys.argv[1] if len(sys.argv) > 1 else "HEAD"
+    base = "HEAD"
+    which = [None, 1, 2, 3, 4, 5, 6, 7, 8, "all"]
+    if len(sys.argv) > 1:          # e.g.  tools/c15_variants.py 6 7 all
+        which = [(int(x) if x.isdigit() else (None if x == "none" else x)) for x in sys.argv[1:]]
     patches = os.path.join(ROOT, "tools", "c15_patches.py")
     results = []
-    for missing in [None, 1, 2, 3, 4, 5, 6, 7, "all"]:
+    for missing in which:
         wt = "/var/tmp/verif.wt.C15v"
         subprocess.run(["git", "-C", "/repo", "worktree", "remove", "--force", wt], capture_output=True)
         subprocess.run(["git", "-C", "/repo", "worktree", "add", "--detach", wt, base], check=True, capture_output=True)
-        flags = ["y"] * 7
-        for n in (7, 6, 5, 4, 3, 2, 1):
-            if missing == "all" or n == missing:
+        flags = ["y"] * 8
+        for n in (8, 7, 6, 5, 4, 3, 2, 1):
+            # repair 8 moved the roll back of repair 6 to the common exit: 6 can only be taken
+            # out together with 8
+            if missing == "all" or n == missing or (missing == 6 and n == 8):
                 subprocess.run([sys.executable, patches, str(n), wt, "--reverse"], check=True, capture_output=True)
                 flags[FLAGPOS[n]] = "n"
         var = "".join(flags)
@@ -43,7 +48,7 @@ sys.path.insert(0, "%s/tools")
 import vlib, gen_replay as G
 var = "%s"
 model = vlib.build_model()
-drv = vlib.build_driver("h_replay", ["h_replay.c"], wraps=["coap_socket_send"])
+drv = vlib.build_driver("h_replay", ["h_replay.c"], wraps=["coap_socket_send", "coap_malloc_type"])
 r = random.Random(7)
 lines = list(vlib.read_corpus("C15"))
 lines += list(G.rpu_exhaustive("32", G.UNIT_ALPHABET, 3))
@@ -51,12 +56,17 @@ lines += list(G.rpd_exhaustive("32", 0, G.REQ_ALPHABET, 3)) + list(G.rpd_exhaust
 lines += [G.rpu_random(r) for _ in range(3000)] + [G.rpd_random(r) for _ in range(3000)]
 lines += list(G.rpx_exhaustive("32", 0, G.RPX_ALPHABET, 3)) + list(G.rpx_exhaustive("32", 1, G.RPX_ALPHABET, 3))
 lines += [G.rpx_random(r) for _ in range(3000)]
-lines = [l.replace(" fixed ", " " + var + " ", 1) for l in lines if not l.startswith("sst")]
+lines = [l.replace(" fixed ", " " + var + " ", 1) for l in lines if not l.startswith("sst") and not l.startswith("rpe")]
 om, _ = vlib.run_lines_robust(model, lines)
 oc, _ = vlib.run_lines_robust(drv, lines)
+# allocation-failure tokens (A<seq>.<k>): where the processing stops depends on k, the model has
+# one class for it - comparable only when every exit behaves alike (all repairs present)
+if "n" in var:
+    keep = [i for i, l in enumerate(lines) if not any(t.lstrip("2").startswith("A") for t in l.split()[4:])]
+    lines = [lines[i] for i in keep]; om = [om[i] for i in keep]; oc = [oc[i] for i in keep]
 bad = [(l, m, c) for l, m, c in zip(lines, om, oc) if m != c and "NOGEN" not in c]
 print("DIFF", var, len(lines), len(bad))
-for l, m, c in bad[:3]:
+for l, m, c in bad[:4]:
     print("  case", l); print("  model", m); print("  impl ", c)
 ''' % (ROOT, var)
         p = subprocess.run([sys.executable, "-c", code], env=env, capture_output=True, text=True, cwd=ROOT)
